@@ -255,7 +255,7 @@ func (e *Engine) newUnit(p *packages.Package, ct *Contract) *Unit {
 		heapSorts: map[string]string{}, callN: map[string]int{}, safeN: map[string]int{},
 		closures: map[types.Object]*ast.FuncLit{}, litKeys: map[*ast.FuncLit]string{},
 		ghostDone: map[string]bool{}, trustedUsed: map[string]bool{}, usedContracts: map[string]bool{},
-		tables: map[string]Val{},
+		tables: map[string]Val{}, elemAlias: map[types.Object]elemAlias{},
 	}
 	return u
 }
@@ -309,6 +309,16 @@ func (e *Engine) verifyFunc(p *packages.Package, ct *Contract) (res *UnitResult)
 		u.sig = p.TypesInfo.TypeOf(x).(*types.Signature)
 	}
 	u.ftype = ftype
+	u.returnOrd = map[*ast.ReturnStmt]int{}
+	ast.Inspect(u.body, func(n ast.Node) bool {
+		switch x := n.(type) {
+		case *ast.FuncLit:
+			return false
+		case *ast.ReturnStmt:
+			u.returnOrd[x] = len(u.returnOrd) + 1
+		}
+		return true
+	})
 	base := strings.Split(ct.Key, "$")[0]
 	_, topDecl := findFunc(p, base)
 	litKeysOf(topDecl, base, u.litKeys)
@@ -461,6 +471,18 @@ func (u *Unit) checkExit(k int, ex Exit, pos token.Pos) {
 	ct := u.contract
 	env := u.funcEnv(st, u.entry)
 	env.results = ex.results
+	// parameters and the receiver denote their values at function entry
+	if u.sig.Recv() != nil {
+		if v, ok := u.entry.vars[u.sig.Recv()]; ok && u.sig.Recv().Name() != "" {
+			env.names[u.sig.Recv().Name()] = v
+		}
+	}
+	for i := 0; i < u.sig.Params().Len(); i++ {
+		p := u.sig.Params().At(i)
+		if v, ok := u.entry.vars[p]; ok && p.Name() != "" && p.Name() != "_" {
+			env.names[p.Name()] = v
+		}
+	}
 	for i, r := range u.results {
 		if r.Name() != "" && r.Name() != "_" && i < len(ex.results) {
 			env.names[r.Name()] = ex.results[i]
@@ -691,6 +713,17 @@ func (u *Unit) lemmaFormula(l *Lemma, home *packages.Package) string {
 	body := sImp(sAnd(pre...), sAnd(post...))
 	if len(decls) == 0 {
 		return body
+	}
+	var pats []string
+	for _, tr := range l.Triggers {
+		var ts []string
+		for _, t := range tr {
+			ts = append(ts, env.eval(t).T)
+		}
+		pats = append(pats, ":pattern ("+strings.Join(ts, " ")+")")
+	}
+	if len(pats) > 0 {
+		body = "(! " + body + " " + strings.Join(pats, " ") + ")"
 	}
 	return fmt.Sprintf("(forall (%s) %s)", strings.Join(decls, " "), body)
 }
